@@ -78,12 +78,24 @@ const (
 // and the panic escapes Decode.
 const keyCuePanic = "cue-eval-panic"
 
+// A slice or array whose element struct type has an unexported field: the
+// transformer leaves an empty mapping entry for the unexported field
+// (TranslateType `continue`s) and ReverseTranslate then calls Unmangle with no
+// values for it -> index out of range in the mangler (elements are not
+// pointerified, so the unexported field is still there).
+const keyElemUnexported = "elem-unexported-field-panic"
+
+// A user-declared pointer to a pointer to a struct (**Sub): Pointerify treats it
+// as a leaf, the flatten mangler strips every pointer level and flattens it as
+// a struct; env / flag / pflag then panic on the non-pointerified inner fields.
+const keyPtrPtrStruct = "double-pointer-struct-panic"
+
 // A call that allocates more than memLimit is stopped by ending the test
 // process (see watchdog); on the pinned tree the Cue evaluator does that for
 // `x: ["a"]*18446744073709551615` (it would also never return).
 const keyMemory = "memory-blowup"
 
-var allKeys = []string{keyCuePanic, keyMemory, "hang", keyNamedScalar, keyNamedElem, keyPtrCollection, keyNestedCollection, keyFlagDoublePtr, keyFlagTextSlice, keyPflagDoublePtr, keyFlagNamedComplex}
+var allKeys = []string{keyCuePanic, keyMemory, "hang", keyElemUnexported, keyPtrPtrStruct, keyNamedScalar, keyNamedElem, keyPtrCollection, keyNestedCollection, keyFlagDoublePtr, keyFlagTextSlice, keyPflagDoublePtr, keyFlagNamedComplex}
 
 var (
 	knownOnce sync.Once
@@ -119,7 +131,7 @@ type panicInfo struct {
 const memLimit = 3 << 30
 
 var (
-	hangSeen     atomic.Bool  // a call hung: later cases are skipped, the hung goroutine is still there
+	hangIn       sync.Map     // check name -> true: a call of that check hung; its later cases are skipped (the hung goroutine is still there), so the violation is reported at once and rapid does not pile up more of them while shrinking
 	currentWhat  atomic.Value // string: description of the guarded call in flight
 	currentCheck atomic.Value // string: "C16.<check name>" for the fail file
 	currentCase  atomic.Value // []byte: JSON of the case in flight (vrt checks)
@@ -150,6 +162,13 @@ func startWatchdog() {
 	})
 }
 
+// hungIn reports whether a call of the named check ("C16.text-x", "C16.types-x",
+// "C16.fuzz-x") has hung in this process.
+func hungIn(check string) bool {
+	_, ok := hangIn.Load(check)
+	return ok
+}
+
 // guard runs f on its own goroutine, converts a panic into a value and a
 // missing return after hangLimit into hung=true.  what describes the call for
 // the watchdog.
@@ -176,7 +195,9 @@ func guard(what string, f func()) (p *panicInfo, hung bool) {
 	case p = <-done:
 		return p, false
 	case <-tm.C:
-		hangSeen.Store(true)
+		if ck, ok := currentCheck.Load().(string); ok {
+			hangIn.Store(ck, true)
+		}
 		return nil, true
 	}
 }
@@ -191,9 +212,24 @@ var (
 
 // classifyPanic maps a panic message (and stack) to a root-cause key.
 func classifyPanic(p *panicInfo) string {
+	// the empty mapping entry of a skipped (unexported) element field reaches a
+	// mangler's Unmangle with a zero StructField and no values: manglers index
+	// vs[0] (index out of range) or use sf.Type (nil dereference)
+	if (strings.Contains(p.msg, "index out of range [0] with length 0") || strings.Contains(p.msg, "nil pointer dereference")) &&
+		strings.Contains(p.stack, "maybeRecursivelyUnmangle") && strings.Contains(p.stack, ".Unmangle(") {
+		return keyElemUnexported
+	}
+	if strings.Contains(p.msg, "reflect: Elem of invalid type") && strings.Contains(p.stack, "StringCastingMangler") {
+		return keyPtrPtrStruct
+	}
+	if strings.Contains(p.msg, "call of reflect.Value.IsNil on") && (strings.Contains(p.stack, "sources/flag.") || strings.Contains(p.stack, "sources/pflag.")) {
+		return keyPtrPtrStruct
+	}
 	if m := reSet.FindStringSubmatch(p.msg); m != nil {
 		src, dst := m[1], m[2]
 		switch {
+		case strings.HasPrefix(src, "*") && dst == "*"+src && strings.Contains(p.stack, "flatten_mangler"):
+			return keyPtrPtrStruct
 		case strings.HasPrefix(dst, "*") && !strings.HasPrefix(src, "*"):
 			return keyPtrCollection
 		case strings.Contains(p.stack, "reflect.Append"):
